@@ -68,6 +68,7 @@ pub fn selftest_cmd(seed: u64) -> i32 {
                 info: None,
                 walk: None,
                 comp: None,
+                xproc: 0,
             };
             let res = crate::exec::run(&sc);
             if let Some(e) = &res.parse_err {
